@@ -1,5 +1,8 @@
 //! Code for inserting elements and the entry pattern.
 
+#[cfg(feature = "verif-hooks")]
+use crate::verif::AtomicUsize;
+#[cfg(not(feature = "verif-hooks"))]
 use std::sync::atomic::AtomicUsize;
 use std::sync::atomic::Ordering;
 
